@@ -36,6 +36,7 @@ def counters_cfg(rng: random.Random, tier: str) -> gen.GenCfg:
         base=rng.choice([0, 1000, 10 ** 6]), fmt=rng.choice(["json", "json.gz"]),
         unlinked_head=rng.choice([0, 0, 1, 2, 3]), bwd_thread=rng.random() < 0.2,
         max_children=rng.choice([3, 4]),
+        corr_stride=rng.choice([100, 0, 0]), p_unlisted_launch=rng.choice([0.0, 0.15]),
     )
 
 
@@ -120,7 +121,7 @@ class C15(Prop):
     def gen_case(self, rng, k, tier):
         case = case_from_cfg(rng, counters_cfg(rng, tier))
         n = len(case["ranks"])
-        case["req"] = sorted(rng.sample(range(n), rng.randint(1, n)))
+        case["req"] = rng.sample(range(n), rng.randint(1, n))       # any order
         case["mem"] = rng.random() < 0.5
         return case
 
